@@ -33,6 +33,8 @@ inductive Layer
   | wr                   -- `MaybeMut<true, T>`     (`Mut<T>`)
   | nsigner               -- `MaybeSigner<false, T>` (pass-through)
   | nmut                  -- `MaybeMut<false, T>`    (pass-through)
+  | advw                  -- a user set advertising `writable` in its meta without checking (like `Init`)
+  | advs                  -- a user set advertising `signer` in its meta without checking
   | addr (k : List Nat)   -- a field with `#[validate(address = &k)]`
 deriving Repr, DecidableEq
 
@@ -78,6 +80,8 @@ def validateL : List Layer → Base → Acct → Except Err Unit
     | .ok () => if a.writable then .ok () else .error .expectedWritable
   | .nsigner :: ls, b, a => validateL ls b a
   | .nmut :: ls, b, a => validateL ls b a
+  | .advw :: ls, b, a => validateL ls b a
+  | .advs :: ls, b, a => validateL ls b a
   | .addr k :: ls, b, a =>
     if fastEq32 a.key k then validateL ls b a else .error .addressMismatch
 
@@ -94,6 +98,8 @@ def layerOk : Layer → Acct → Prop
   | .wr, a => a.writable = true
   | .nsigner, _ => True
   | .nmut, _ => True
+  | .advw, _ => True
+  | .advs, _ => True
   | .addr k, a => a.key = k
 
 def baseOk : Base → Acct → Prop
@@ -108,6 +114,8 @@ def layerErr : Layer → Err
   | .wr => .expectedWritable
   | .nsigner => .expectedSigner   -- never reported
   | .nmut => .expectedWritable    -- never reported
+  | .advw => .expectedWritable    -- never reported
+  | .advs => .expectedSigner      -- never reported
   | .addr _ => .addressMismatch
 
 def baseErr : Base → Err
